@@ -1,0 +1,11 @@
+//go:build verif
+
+package masks
+
+// Machine-checked contracts for this package (comment-only; excluded from normal builds).
+
+//@ property C06 C05 C15
+//@ // option values are only ever made by this package's With... constructors (the types are function types whose
+//@ // values are applied to an unexported receiver state): calls through them are dispatched over those closures
+//@ callback ResponseFilterOption: closed
+//@ callback FieldUpdaterOption: closed
